@@ -292,6 +292,20 @@ func VerifC11Nil() {
 	}
 }
 
+// verifMaxElements bounds which list element of a model is replaced by a typed nil.
+const verifMaxElements = 16
+
+// VerifC11NilBranch: any one list element of a corpus model (one of the first
+// verifMaxElements in walk order) replaced by a typed nil pointer of its own type is a
+// nil branch: the structural walk reports it as an error, and neither walk panics.
+func VerifC11NilBranch() {
+	m := verifCorpusModel()
+	k := verifrt.NondetChoice("list element replaced by a typed nil", verifMaxElements)
+	verifrt.Assume(verifrt.NilNthElement(m, k, "github.com/specterops/dawgs/cypher/models/cypher"))
+	verifrt.Assert(walk.CypherStructural(m, newVerifRecorder()) != nil, "a typed nil list element is an error for the structural walk")
+	walk.Cypher(m, newVerifRecorder())
+}
+
 func VerifC11Witness() {
 	m := verifCorpusModel()
 	rec := newVerifRecorder()
